@@ -23,9 +23,13 @@ pub fn prop() -> Option<&'static dyn Prop> {
     Some(&C07)
 }
 
-const LIB: &str = "fn v_cnt(a) -> float {\n  self + a\n}\nfn t2(a) -> (float,float) {\n  let (p, q) = self\n  (p + a, q + 1.0)\n}\nfn v_t2(a) {\n  let (p, q) = t2(a)\n  p + q\n}\nfn v_mem(a) {\n  mem(mem(a))\n}\nfn v_d5(a) {\n  delay(5.0, a, 3.0)\n}\nfn v_d9(a) {\n  delay(9.0, a, 6.0)\n}\nfn t3(a) -> (float,float,float) {\n  let (p, q, r) = self\n  (q, r, p + a)\n}\nfn v_n3(a) {\n  let (p, q, r) = t3(a)\n  delay(2.0, p + r, 1.0)\n}\nfn w_cnt(a) {\n  v_cnt(a)\n}\nfn w_t2(a) {\n  v_t2(a)\n}\nfn w_mem(a) {\n  v_mem(a)\n}\nfn w_d5(a) {\n  v_d5(a)\n}\nfn w_d9(a) {\n  v_d9(a)\n}\nfn w_n3(a) {\n  v_n3(a)\n}\n";
+const LIB: &str = "fn v_cnt(a) -> float {\n  self + a\n}\nfn t2(a) -> (float,float) {\n  let (p, q) = self\n  (p + a, q + 1.0)\n}\nfn v_t2(a) {\n  let (p, q) = t2(a)\n  p + q\n}\nfn v_mem(a) {\n  mem(mem(a))\n}\nfn v_d5(a) {\n  delay(5.0, a, 3.0)\n}\nfn v_d9(a) {\n  delay(9.0, a, 6.0)\n}\nfn t3(a) -> (float,float,float) {\n  let (p, q, r) = self\n  (q, r, p + a)\n}\nfn v_n3(a) {\n  let (p, q, r) = t3(a)\n  delay(2.0, p + r, 1.0)\n}\nfn w_cnt(a) {\n  v_cnt(a)\n}\nfn w_t2(a) {\n  v_t2(a)\n}\nfn w_mem(a) {\n  v_mem(a)\n}\nfn w_d5(a) {\n  v_d5(a)\n}\nfn w_d9(a) {\n  v_d9(a)\n}\nfn w_n3(a) {\n  v_n3(a)\n}\nfn v_c3(a) {\n  v_cnt(a) + v_cnt(a * 2.0) + v_cnt(a * 3.0)\n}\nfn v_cm(a) {\n  v_cnt(a) + mem(a)\n}\nfn w_c3(a) {\n  v_c3(a)\n}\nfn w_cm(a) {\n  v_cm(a)\n}\n";
 
-const KINDS: [&str; 6] = ["cnt", "t2", "mem", "d5", "d9", "n3"];
+/// kinds 6-8 are look-alikes: their state trees share a sub-shape (a nested `v_cnt` call) with each
+/// other and with nothing else, so a diff that prefers a partial match over a crossing full match
+/// moves state between them; a full match always carries strictly more cells than any partial one
+/// (c3: 3 cells, cm: 2 cells, overlap 1 cell), so "untouched" stays unambiguous
+const KINDS: [&str; 8] = ["cnt", "t2", "mem", "d5", "d9", "n3", "c3", "cm"];
 
 /// model of one voice instance
 #[derive(Clone, Debug)]
@@ -86,6 +90,17 @@ impl Voice {
             }
             3 => Voice::delay(&mut self.hist, a, 3),
             4 => Voice::delay(&mut self.hist, a, 6),
+            6 => {
+                let (p, q, r) = self.s_t3;
+                self.s_t3 = (p + a, q + a * 2.0, r + a * 3.0);
+                (self.s_t3.0 + self.s_t3.1) + self.s_t3.2
+            }
+            7 => {
+                self.s_cnt += a;
+                let prev = self.s_mem.0;
+                self.s_mem.0 = a;
+                self.s_cnt + prev
+            }
             _ => {
                 let (p, q, r) = self.s_t3;
                 self.s_t3 = (q, r, p + a);
@@ -98,6 +113,27 @@ impl Voice {
         let f = if self.wrapped { format!("w_{}", KINDS[self.kind]) } else { format!("v_{}", KINDS[self.kind]) };
         format!("{f}(now * 0.1 + {})", self.c_text)
     }
+}
+
+/// look-alike families: bit 0 = contains a nested `v_cnt` call, bit 1 = contains a `mem` cell
+fn fam(v: &Voice) -> u8 {
+    match v.kind {
+        0 if v.wrapped => 1,
+        2 => 2,
+        6 => 1,
+        7 => 3,
+        _ => 0,
+    }
+}
+/// A new voice that partially resembles a voice of the bank it is edited into may be given the
+/// resembling cells of that voice by the state-tree diff (which carries every matching cell it can
+/// when a call site's shape changes); its channel is not predicted.  Untouched voices still are.
+fn new_voice(kind: usize, c: &str, old: &[Voice]) -> Voice {
+    let mut v = Voice::new(kind, c);
+    if old.iter().any(|o| fam(o) & fam(&v) != 0) {
+        v.unchecked = true;
+    }
+    v
 }
 
 fn program(vs: &[Voice], broken: Option<&str>) -> String {
@@ -155,7 +191,8 @@ fn history(g: &mut Gen) -> (Vec<Step>, Vec<String>) {
             0 => {
                 let pos = g.usize_below(vs.len() + 1);
                 let kind = *g.pick(&absent);
-                vs.insert(pos, Voice::new(kind, *g.pick(&CONSTS[..])));
+                let nv = new_voice(kind, *g.pick(&CONSTS[..]), &vs);
+                vs.insert(pos, nv);
                 edit = format!("insert:{}", where_(pos, vs.len()));
                 labels.push("edit:insert".to_string());
             }
@@ -168,7 +205,7 @@ fn history(g: &mut Gen) -> (Vec<Step>, Vec<String>) {
             2 => {
                 let pos = g.usize_below(vs.len());
                 let kind = *g.pick(&absent);
-                vs[pos] = Voice::new(kind, *g.pick(&CONSTS[..]));
+                vs[pos] = new_voice(kind, *g.pick(&CONSTS[..]), &vs);
                 edit = format!("replace:{}", where_(pos, vs.len()));
                 labels.push("edit:replace".to_string());
             }
@@ -183,8 +220,9 @@ fn history(g: &mut Gen) -> (Vec<Step>, Vec<String>) {
             6 => {
                 // every voice replaced at once: no stateful call site survives the edit
                 let pick = g.perm(absent.len());
+                let old = vs.clone();
                 for (i, v) in vs.iter_mut().enumerate() {
-                    *v = Voice::new(absent[pick[i]], *g.pick(&CONSTS[..]));
+                    *v = new_voice(absent[pick[i]], *g.pick(&CONSTS[..]), &old);
                 }
                 edit = "replace-all".into();
                 labels.push("edit:replace-all".to_string());
@@ -358,7 +396,7 @@ impl Prop for C07 {
         out
     }
     fn rule(&self) -> String {
-        "Cases are histories over voice-bank programs: dsp returns 2-4 channels, each an independent stateful voice from a library of six (counter, tuple-valued self, two chained mems, delays of 5 and 9, a 3-tuple self feeding a delay) whose state layouts share no cell shape. A history is 2-5 steps `run r samples; edit; hot-swap`: insert / delete / replace a voice at any position, change a voice's constant, nest a voice one call deeper, or an edit that does not compile (syntax or type error). Oracle: a per-voice model in the harness predicts every channel of every sample — an untouched voice continues from its state, a new voice starts from zero (with `now` continuing), a failed compile changes nothing and is never swapped in; a re-nested voice is not predicted. Both runtimes. Non-trivial = at least one edit step was executed.".into()
+        "Cases are histories over voice-bank programs: dsp returns 2-4 channels, each an independent stateful voice from a library of eight: six whose state layouts share no cell shape (counter, tuple-valued self, two chained mems, delays of 5 and 9, a 3-tuple self feeding a delay) and two look-alikes (three nested counters; a nested counter plus a mem) that partially resemble each other and the mem voice, always by fewer cells than either carries itself. A history is 2-5 steps `run r samples; edit; hot-swap`: insert / delete / replace a voice at any position, change a voice's constant, nest a voice one call deeper, or an edit that does not compile (syntax or type error). Oracle: a per-voice model in the harness predicts every channel of every sample — an untouched voice continues from its state, a new voice starts from zero (with `now` continuing), a failed compile changes nothing and is never swapped in; a re-nested voice is not predicted. Both runtimes. Non-trivial = at least one edit step was executed.".into()
     }
     fn assumptions(&self) -> Vec<String> {
         vec!["voices with pairwise distinct cell shapes make 'untouched' unambiguous (C08 allows exchange among identical shapes)".into(), "the per-voice model is trusted: it is checked against the running program before any edit (signature model-mismatch-before-any-edit)".into()]
